@@ -603,8 +603,12 @@ def run_case(case, ctx):
             c = {"int": int, "float": float, "Fraction": F}[op["cls"]]
             opname = f"convert[{op['cls']}]"
             if c is int:
+                trunc = [F(int(k)) for k in L]  # int() truncates toward zero
                 if all(k.denominator == 1 for k in L):
                     cls, exp, new_exact = "accept", list(L), True
+                elif all(abs(t - k) <= F(1, 10**9) for t, k in zip(trunc, L)) and ref.wellformed(trunc) is not None:
+                    # within the method's own 1e-9 tolerance (a float one ulp above an integer): either outcome
+                    cls, exp, new_exact = "either", trunc, True
                 else:
                     cls, exp, new_exact = "reject-valueerror", None, m.exact
             elif c is float:
